@@ -98,36 +98,40 @@ func (p *SingleFlightProvider) UserGroups(email string, groups []string, accessT
 func (p *SingleFlightProvider) ValidateSessionState(s *sessions.SessionState, allowedGroups []string) bool {
 	response, err := p.do("ValidateSessionState", s.AccessToken, func() (interface{}, error) {
 		valid := p.provider.ValidateSessionState(s, allowedGroups)
-		return valid, nil
+		return newSessionResult(valid, s), nil
 	})
 	if err != nil {
 		return false
 	}
 
-	valid, ok := response.(bool)
+	r, ok := response.(*sessionResult)
 	if !ok {
 		return false
 	}
-
-	return valid
+	r.apply(s)
+	return r.ok
 }
 
 // RefreshSession takes in a SessionState and allowedGroups and
 // returns false if the session is not refreshed and true if it is.
 func (p *SingleFlightProvider) RefreshSession(s *sessions.SessionState, allowedGroups []string) (bool, error) {
 	response, err := p.do("RefreshSession", s.RefreshToken, func() (interface{}, error) {
-		return p.provider.RefreshSession(s, allowedGroups)
+		ok, err := p.provider.RefreshSession(s, allowedGroups)
+		if err != nil {
+			return nil, err
+		}
+		return newSessionResult(ok, s), nil
 	})
 	if err != nil {
 		return false, err
 	}
 
-	r, ok := response.(bool)
+	r, ok := response.(*sessionResult)
 	if !ok {
 		return false, ErrUnexpectedReturnType
 	}
-
-	return r, nil
+	r.apply(s)
+	return r.ok, nil
 }
 
 // GetSignInURL calls the GetSignInURL for the provider, which will return the sign in url
@@ -138,4 +142,31 @@ func (p *SingleFlightProvider) GetSignInURL(redirectURI *url.URL, finalRedirect 
 // GetSignOutURL calls the GetSignOutURL for the provider, which will return the sign out url
 func (p *SingleFlightProvider) GetSignOutURL(redirectURI *url.URL) *url.URL {
 	return p.provider.GetSignOutURL(redirectURI)
+}
+
+// sessionResult carries the outcome of a coalesced ValidateSessionState / RefreshSession call
+// together with a snapshot of the session fields the call updated, so that callers whose call
+// was merged end up with the same session updates as the caller whose call actually ran.
+type sessionResult struct {
+	ok   bool
+	from *sessions.SessionState
+	snap sessions.SessionState
+}
+
+func newSessionResult(ok bool, s *sessions.SessionState) *sessionResult {
+	r := &sessionResult{ok: ok, from: s, snap: *s}
+	r.snap.Groups = append([]string(nil), s.Groups...)
+	return r
+}
+
+// apply copies the updated fields onto the session of a caller that joined the call.
+func (r *sessionResult) apply(s *sessions.SessionState) {
+	if !r.ok || s == r.from {
+		return
+	}
+	s.AccessToken = r.snap.AccessToken
+	s.RefreshDeadline = r.snap.RefreshDeadline
+	s.ValidDeadline = r.snap.ValidDeadline
+	s.GracePeriodStart = r.snap.GracePeriodStart
+	s.Groups = append([]string(nil), r.snap.Groups...)
 }
